@@ -369,8 +369,9 @@ impl<'a> Analyzer<'a> {
       Ev::RootRet(..) => {}
       Ev::BottomUpStart => {
         s.in_bu = true;
+        if !s.bu_seen { self.bu_snapshot = Some((self.sh.clone(), s.cells, s.fail)); }
         s.bu_seen = true;
-        self.bu_snapshot = Some((self.sh.clone(), s.cells, s.fail));
+        s.queue = 0;
       }
       Ev::BottomUpSchedule(_) | Ev::BottomUpUpdate => {}
       Ev::BottomUpDone => { s.in_bu = false; }
@@ -804,7 +805,16 @@ impl<'a> Analyzer<'a> {
         s.validated |= bit(*task);
       }
       TrkEv::RequireStart(task, _) => { self.sh[*task as usize].known = true; }
-      TrkEv::RequireEnd(task, ..) => { s.validated |= bit(*task); }
+      TrkEv::RequireEnd(task, ..) => {
+        // A require that returns during a bottom-up build hands out a consistent task: no scheduled task may still be
+        // pending among the tasks it (transitively) requires.
+        let pending = (self.reach(*task) | bit(*task)) & s.queue;
+        if pending != 0 && !self.post_abort {
+          self.add(s, &[Prop::C04, Prop::C03], "require-returned-with-scheduled-dependency", "",
+            format!("during the bottom-up build a require of T{} returned while scheduled task(s) {:#b} that it (transitively) requires had not been executed yet", task, pending));
+        }
+        s.validated |= bit(*task);
+      }
       _ => {}
     }
   }
